@@ -195,6 +195,15 @@ func init() {
 		in.quiesce(c.g)
 		return nil
 	}
+	mkZ := func(marker byte) intrinsic {
+		return func(in *Interp, c *callCtx) Value {
+			raw := in.sliceBytes(c.args[0].(SliceV))
+			b := append([]*Term{in.tt.Const(8, uint64(marker)), in.tt.Const(8, 'Z')}, raw...)
+			return in.bytesToSlice(b)
+		}
+	}
+	rtIntrinsics["vZlib"] = mkZ(0xFE)
+	rtIntrinsics["vZlibCorrupt"] = mkZ(0xFD)
 	rtIntrinsics["vSleep"] = func(in *Interp, c *callCtx) Value {
 		in.schedPoint(c.g, "sleep")
 		return nil
